@@ -87,10 +87,11 @@ class FrameBuffer:
             if not valid_frame:
                 raise ProtocolError("Invalid frame during header block.")
 
-            # Append the frame to the buffer.
-            self._headers_buffer.append(f)
-            if len(self._headers_buffer) > CONTINUATION_BACKLOG:
+            # Append the frame to the buffer, unless that would take the
+            # buffer past its limit: a refused frame is not retained.
+            if len(self._headers_buffer) >= CONTINUATION_BACKLOG:
                 raise ProtocolError("Too many continuation frames received.")
+            self._headers_buffer.append(f)
 
             # If this is the end of the header block, then we want to build a
             # mutant HEADERS frame that's massive. Use the original one we got,
